@@ -469,6 +469,7 @@ func blockEnumRun(prop string) func(c *ev.Ctx) {
 		var idx int64
 		var keep [][]byte
 		fams := map[string]int64{}
+		sigSeen := map[string]bool{}
 		enumSources(c, false, func(s srcSpec, src []byte) {
 			idx++
 			big := len(src) >= 65535
@@ -514,6 +515,11 @@ func blockEnumRun(prop string) func(c *ev.Ctx) {
 					out, n, f := env.checkOne(prop, k, src)
 					c.Add("ns_"+s.Fam+"_"+cfg.Algo, int64(time.Since(t0)))
 					if f != nil {
+						if sigSeen[f.Sig] {
+							c.Report(f) // counted; already confirmed once
+							continue
+						}
+						sigSeen[f.Sig] = true
 						repro := true
 						for i := 0; i < 5 && repro; i++ {
 							e2 := &blockEnv{}
